@@ -549,3 +549,78 @@ def run_modes(facts, report, config, prefix="c15.mode", families=None, counter="
         else:
             report.add(Instance(key, prefix, "ok", "auto: %s form forwards to the %s form `%s`" % (
                 "operator" if is_operator else "checked", cm, nm), t["s"], {"body": b["id"]}), config)
+
+
+# ---------------------------------------------------------------------------------------------
+# R7 operator-forest agreement: the by-value / by-reference / mixed / assigning impls of one operator for one
+# (self type, right-hand type) reach terminals of one overflow mode.
+
+OPS = ("core::ops::Add", "core::ops::Sub", "core::ops::Mul", "core::ops::Neg", "core::ops::Shl", "core::ops::Shr")
+
+
+def _op_base(tr):
+    for o in OPS:
+        if tr == o or tr == o + "Assign" or tr.startswith(o + "<") or tr.startswith(o + "Assign<"):
+            return o
+    return None
+
+
+def _rhs_adt(view):
+    if view.argc < 2:
+        return "-"
+    return mir.adt_of_ty(view.locals[2]) or mir.peel_refs(view.locals[2])
+
+
+def run_forest(facts, report, config):
+    from .. import flow as _flow
+    eng = _flow.Engine(facts, _flow.Policy())
+    groups = {}
+    for b in facts.fn_bodies():
+        o = _op_base(b.get("impl_trait") or "")
+        if not o or b["kind"] == "Closure":
+            continue
+        st = mir.adt_of_ty(b.get("impl_self") or "") or (b.get("impl_self") or "")
+        if "wrapping::Wrapping" in st or "checked::Checked" in st or "modular::" in st:
+            continue
+        view = mir.BodyView(b)
+        groups.setdefault((o, st, _rhs_adt(view)), []).append((b, view))
+
+    def terminal(b, view, members, depth=0):
+        live = view.live_blocks()
+        if any(view.blocks[i]["term"]["k"] == "switch" for i in live):
+            return None
+        calls = [view.blocks[i]["term"] for i in live if view.blocks[i]["term"]["k"] == "call"]
+        fam = [t for t in calls if not _neutral_callee(t) and
+               (family(mir.last_seg(mir.callee_name(t))) or family(mir.last_seg(mir.callee_decl(t))))]
+        if len(fam) != 1:
+            return None
+        t = fam[0]
+        ids = eng.callee_ids(t)
+        if len(ids) == 1 and ids[0] in members and ids[0] != b["id"] and depth < 5:
+            nb = facts.bodies[ids[0]]
+            return terminal(nb, mir.BodyView(nb), members, depth + 1)
+        return mir.callee_name(t) or mir.callee_decl(t)
+
+    for (o, st, rhs), bs in sorted(groups.items()):
+        members = {b["id"] for b, _ in bs}
+        terms = {}
+        for b, view in bs:
+            tm = terminal(b, view, members)
+            if tm is not None:
+                terms.setdefault(_mode(mir.last_seg(tm)), []).append((b["id"], tm))
+        if not terms:
+            continue
+        report.count("operator_forests")
+        key = "c15.forest|%s|%s|%s" % (o.rsplit("::", 1)[1], norm_id(st), norm_id(rhs))
+        if len(terms) > 1:
+            desc = "; ".join("%s -> `%s` (%s form)" % (norm_id(i).rsplit(">::", 1)[0][-60:] + ">", mir.last_seg(tm), m)
+                             for m, lst in sorted(terms.items()) for i, tm in lst[:2])
+            report.add(Instance(key, "c15.forest", "violation",
+                                "the by-value / by-reference / assigning impls of `%s` for `%s` (right-hand side `%s`) do not end "
+                                "in the same kind of operation: %s — the same expression panics, wraps or widens depending on "
+                                "whether its operands are borrowed" % (o.rsplit("::", 1)[1], st, rhs, desc),
+                                bs[0][0]["span"], {"terminals": {m: [list(x) for x in lst] for m, lst in terms.items()}}), config)
+        else:
+            m = list(terms)[0]
+            report.add(Instance(key, "c15.forest", "ok", "auto: all %d forwarding impls end in a %s form" % (
+                len(terms[m]), m), bs[0][0]["span"], {}), config)
